@@ -554,6 +554,24 @@ fn c12_play_from_start() {
     kani::cover!(pre.delay == 0 && !pre.level, "fresh tape");
 }
 
+// @harness
+// @prop C11 C10
+// @tier quick
+// @timeout 300
+// @fn Tap::can_fast_load
+// @sym every field of the tape; generator state of every variant (payload arbitrary)
+// @assert the loader trap may take a block from the tape only while the deck is stopped: in every state of a running deck - including `Play`, which the generator is in during the whole silence between two blocks - can_fast_load is false, so a ROM load request issued between blocks cannot swallow the block the EAR line is about to present ("every block of the TAP image in order"); on a stopped deck it is true
+// @bound one call per state variant
+#[kani::proof]
+fn c11_running_deck_is_closed_to_the_loader_trap() {
+    let k = any_kind();
+    let t = any_probe_tap(k);
+    kani::assert(t.can_fast_load() == (k == K_STOP), "c11.trap.fast_load_only_while_stopped");
+    kani::cover!(k == K_PLAY, "between two blocks");
+    kani::cover!(k == K_PAUSE, "pause pulse");
+    kani::cover!(k == K_STOP, "stopped deck");
+}
+
 // =================================================================================================
 // C11 (4) whole tiny tapes through the real API: bytes in order, flag and checksum included,
 // every bit MSB first, pause, next block, end of tape
